@@ -565,6 +565,11 @@ class Trim(Family):
                 su += 2 * k
             if (sv - 1) // k < 2 and sv + 2 * k <= maxsize:
                 sv += 2 * k
+            if i % 8 == 2:
+                # sample size 10: the tessellator's accumulated parameter u += 1/9 ends at 1.0000000000000002 (the vertices of the
+                # last row fail the [0, 1] check of Surface.tessellate and keep their sampled position)
+                k = rng.choice([1, 3])
+                su, sv = (10, k * rng.randint(2, 6 // k) + 1) if i % 16 == 2 else (k * rng.randint(2, 6 // k) + 1, 10)
             shape = rng.choice(["rect", "rect", "triangle", "convex", "lshape", "over", "aligned", "spline", "two", "ushape"])
             rev = None
             r = rng.random()
@@ -771,7 +776,8 @@ class Container(Family):
             if delta:      # a container sample size n reaches the surfaces as n-1 samples (C12/C17): make the spacing divide n-2
                 su, sv = su + 1, sv + 1
             out.append({"specs": specs, "sizes": sizes, "csize": [su, sv], "k": k, "delta": delta,
-                        "procs": 2 if (i % 6 == 5) else 1, "via": rng.choice(["tessellate", "property"]) if k == 1 else "tessellate"})
+                        "procs": 2 if (i % 6 == 5) else 1, "via": rng.choice(["tessellate", "property"]) if k == 1 else "tessellate",
+                        "tsl": (i % 3 == 1)})   # tsl: the tessellation component is assigned through the container property first
         return out
 
     def _container(self, c):
@@ -782,6 +788,8 @@ class Container(Family):
     def impl(self, c):
         def f():
             mc = self._container(c)
+            if c.get("tsl"):
+                mc.tessellator = tessellate.TriangularTessellate()
             if c["delta"]:
                 mc.sample_size_u, mc.sample_size_v = c["csize"]
             if c["via"] == "property" and c["delta"]:
@@ -849,7 +857,8 @@ class Container(Family):
         return "ok" in out and len(c["specs"]) > 1
 
     def stratum(self, c, out):
-        return "n%d/%s/procs%d/k%d/%s" % (len(c["specs"]), "delta" if c["delta"] else "own", c["procs"], c["k"], "ok" if "ok" in out else "err")
+        return "n%d/%s/procs%d/k%d/%s%s" % (len(c["specs"]), "delta" if c["delta"] else "own", c["procs"], c["k"], "ok" if "ok" in out else "err",
+                                            "/tsl-assigned" if c.get("tsl") else "")
 
 
 # ------------------------------------------------------------------------------------------------ exports
